@@ -281,7 +281,7 @@ def run_population(case):
         return msg, sig, info
     # the manager lives on: some of the peers just advertised fail their next verification (marked
     # bad, last_good still recent), some go stale, a little time passes, and a client asks again
-    changed = 0
+    changed = moved = 0
     for j, tup in enumerate(info.get('last_result') or ()):
         peer = by_host.get(tup[1])
         if peer is None:
@@ -293,7 +293,26 @@ def run_population(case):
         elif what == 1:
             peer.last_good = NOW - STALE - 5
             changed += 1
+        elif what >= 2 and peer.ip_addr and peer.ip_addr != peer.host:
+            # a host name re-verified at another address (what _verify_peer does on every
+            # verification: peer.ip_addr = the address connected to): it moves into a /16 from
+            # which two peers were just advertised, if there is one (else any advertised /16)
+            last = info['last_result']
+            per16 = {}
+            for t in last:
+                o = by_host.get(t[1])
+                if o is not None and o is not peer and o.ip_addr and ':' not in o.ip_addr:
+                    per16.setdefault(tuple(o.ip_addr.split('.')[:2]), []).append(o)
+            mine = tuple(peer.ip_addr.split('.')[:2]) if ':' not in peer.ip_addr else None
+            targets = sorted(k for k, v in per16.items() if len(v) >= 2 and k != mine) or \
+                sorted(k for k in per16 if k != mine)
+            if targets:
+                a, b = targets[j % len(targets)]
+                peer.ip_addr = f'{a}.{b}.77.{1 + j % 250}'
+                changed += 1
+                moved += 1
     info['second_query_after_changes'] = changed
+    info['moved'] = moved
     msg, sig, _ = query_and_judge('second query')
     if msg:
         return 'second query on the same manager, after %d advertised peers were marked bad or ' \
@@ -313,6 +332,8 @@ def pop_body(ctx):
             classes.append('pop.all_ineligible_kinds')
         if info.get('second_query_after_changes'):
             classes.append('pop.second_query_after_advertised_peers_changed')
+        if info.get('moved'):
+            classes.append('pop.second_query_after_a_host_moved_to_another_bucket')
         if info['eligible_by_bucket'].get('onion', 0) > 10:
             classes.append('pop.onion_gt10')
             clear = sum(v for k, v in info['eligible_by_bucket'].items() if k != 'onion')
